@@ -149,7 +149,7 @@ pub mod unit {
         /*@fn radix-common/src/math/decimal.rs :: impl CheckedMul<Decimal> for Decimal :: fn checked_mul
         @sig
             ensures ret matches Some(r) ==> r.0.v() == mul_spec(self.0.v(), other.0.v()),
-                    ret is Some <==> in_i192(mul_spec(self.0.v(), other.0.v())),
+                    ret is Some <==> (in_i192(mul_spec(self.0.v(), other.0.v())) && mul_spec(self.0.v(), other.0.v()) != i192_min()),
         @entry
             proof { lemma_mul_width(self.0.v() * other.0.v()); }
         @subst <<c_192.map(Self)>> => <<c_192.map(|x: I192| -> (r: Decimal) ensures r.0 == x { Decimal(x) })>> why: Verus rejects a tuple-struct constructor used as a function value; the closure is its eta-expansion
@@ -160,12 +160,24 @@ pub mod unit {
         /*@fn radix-common/src/math/decimal.rs :: impl CheckedDiv<Decimal> for Decimal :: fn checked_div
         @sig
             ensures ret matches Some(r) ==> other.0.v() != 0 && r.0.v() == div_spec(self.0.v(), other.0.v()),
-                    ret is Some <==> (other.0.v() != 0 && in_i192(div_spec(self.0.v(), other.0.v()))),
+                    ret is Some <==> (other.0.v() != 0 && in_i192(div_spec(self.0.v(), other.0.v())) && div_spec(self.0.v(), other.0.v()) != i192_min()),
         @entry
             proof { lemma_div_width(self.0.v()); }
         @subst <<c_192.map(Self)>> => <<c_192.map(|x: I192| -> (r: Decimal) ensures r.0 == x { Decimal(x) })>> why: Verus rejects a tuple-struct constructor used as a function value; the closure is its eta-expansion
         @*/
     }
+
+    // ---- C24 AS STATED, at the boundary: "whenever that result is representable" -------------------
+    // EXPECTED TO FAIL -- known finding (known_findings.txt; replayed on the real crate by
+    // kani/common_h test c24_finding_min_times_one_is_reported_as_overflow): a product or quotient equal
+    // to the most negative value is representable, yet checked_mul / checked_div report None, because the
+    // wide -> narrow conversion of the bnum wrappers rejects -2^(N-1).
+    pub fn checked_mul_reports_every_representable_product_KNOWN_FINDING(a: Decimal, b: Decimal) -> (r: Option<Decimal>)
+        ensures r is Some <==> in_i192(mul_spec(a.0.v(), b.0.v()))
+    { a.checked_mul(b) }
+    pub fn checked_div_reports_every_representable_quotient_KNOWN_FINDING(a: Decimal, b: Decimal) -> (r: Option<Decimal>)
+        ensures r is Some <==> (b.0.v() != 0 && in_i192(div_spec(a.0.v(), b.0.v())))
+    { a.checked_div(b) }
     // ---- panicking operators: panic <==> the checked operation reports None -------------------
     impl vstd::std_specs::ops::AddSpecImpl<Decimal> for Decimal {
         open spec fn obeys_add_spec() -> bool { true }
@@ -193,7 +205,7 @@ pub mod unit {
     }
     impl vstd::std_specs::ops::MulSpecImpl<Decimal> for Decimal {
         open spec fn obeys_mul_spec() -> bool { true }
-        open spec fn mul_req(self, o: Decimal) -> bool { in_i192(mul_spec(self.0.v(), o.0.v())) }
+        open spec fn mul_req(self, o: Decimal) -> bool { in_i192(mul_spec(self.0.v(), o.0.v())) && mul_spec(self.0.v(), o.0.v()) != i192_min() }
         open spec fn mul_spec(self, o: Decimal) -> Decimal { Decimal(I192::of(mul_spec(self.0.v(), o.0.v()))) }
     }
     impl Mul<Decimal> for Decimal {
@@ -205,7 +217,7 @@ pub mod unit {
     }
     impl vstd::std_specs::ops::DivSpecImpl<Decimal> for Decimal {
         open spec fn obeys_div_spec() -> bool { true }
-        open spec fn div_req(self, o: Decimal) -> bool { o.0.v() != 0 && in_i192(div_spec(self.0.v(), o.0.v())) }
+        open spec fn div_req(self, o: Decimal) -> bool { o.0.v() != 0 && in_i192(div_spec(self.0.v(), o.0.v())) && div_spec(self.0.v(), o.0.v()) != i192_min() }
         open spec fn div_spec(self, o: Decimal) -> Decimal { Decimal(I192::of(div_spec(self.0.v(), o.0.v()))) }
     }
     impl Div<Decimal> for Decimal {
